@@ -82,6 +82,11 @@ func zzPod(i int, hash string, ready int, scheduled bool, created time.Time) *co
 	if hash != "" {
 		p.Annotations[datadoghqv1alpha1.MD5ExtendedDaemonSetAnnotationKey] = hash
 	}
+	// the outdated pod of node0 is what an ended (failed or superseded) canary left behind: it still carries
+	// the canary label; for the rolling update it is an outdated pod like any other
+	if i == 0 && hash != zzHashNew {
+		p.Labels[datadoghqv1alpha1.ExtendedDaemonSetReplicaSetCanaryLabelKey] = datadoghqv1alpha1.ExtendedDaemonSetReplicaSetCanaryLabelValue
+	}
 	if scheduled {
 		p.Spec.NodeName = zzNodeName(i)
 	} else {
